@@ -10,6 +10,7 @@ import vlib
 
 PROP_V = 'properties/C06.v'
 OP_ADD2 = 100
+OP_MPO = 101
 
 
 def dmat(O, ops):
@@ -92,6 +93,92 @@ def model_add_correspondence(ctx, st, quick):
         if not ok and not bad:
             ctx.broken.append('in-Coq vm_compute sample disagrees with the extracted driver at %r' % idx[:5])
     ctx.extra['model_correspondence'] = dict(cases=len(jobs), disagreements=len(bad))
+    return bad
+
+
+def export_mpo_mps(O, psi, ops):
+    """per site (dw, da, W[sigma][sigma'] (dwl x dw), A[sigma'] (dal x da)); bonds embedded in the union of the neighbours' legs"""
+    import yastn
+    N = psi.N
+    sp = ops.space()
+    out = []
+    for k in range(N):
+        res = []
+        for X, phys in ((O, {1: sp, 3: sp.conj()}), (psi, {1: sp})):
+            T = X[k]
+            lg = dict(phys)
+            if k > 0:
+                lg[0] = yastn.legs_union(X[k - 1].get_legs(2).conj(), T.get_legs(0))
+            if k < N - 1:
+                lg[2] = yastn.legs_union(T.get_legs(2), X[k + 1].get_legs(0).conj())
+            res.append(T.to_numpy(legs=lg))
+        W, A = res
+        d = A.shape[1]
+        imat = lambda M: [[int(x) for x in row] for row in M]
+        out.append([int(W.shape[2]), int(A.shape[2]),
+                    [[imat(W[:, s, :, s2]) for s2 in range(d)] for s in range(d)],
+                    [imat(A[:, s2, :]) for s2 in range(d)]])
+    return out
+
+
+def model_product_correspondence(ctx, st, quick):
+    """O @ psi of the implementation vs the site-wise Kronecker product of the Coq model (opcode 101), amplitude by amplitude, exactly"""
+    import yastn, yastn.tn.mps as mps, mgen
+    rng = ctx.rng
+    jobs, src = [], []
+    for k in range(40 if quick else 500):
+        fam, sym = rng.choice(mgen.FAMILIES)
+        ops = mgen.operators(fam, sym)
+        N = rng.randint(1, 4)
+        n = rng.choice(mgen.admissible_charges(ops, N))
+        try:
+            a = mgen.int_mps(rng, ops, N, D_total=rng.randint(1, 3), n=n)
+            O = mgen.int_mps(rng, ops, N, D_total=rng.randint(1, 3), nr_phys=2)
+        except Exception:
+            continue
+        if a.virtual_leg('first').D != (1,) or a.virtual_leg('last').D != (1,) or O.virtual_leg('first').D != (1,) or O.virtual_leg('last').D != (1,):
+            continue
+        dloc = sum(ops.space().D)
+        sigmas = [list(s) for s in itertools.product(range(dloc), repeat=N)]
+        if len(sigmas) > 60:
+            sigmas = [sigmas[i] for i in sorted(rng.sample(range(len(sigmas)), 60))]
+        desc = dict(kind='model-product', family=fam, sym=sym, N=N, n=n)
+        try:
+            c = O @ a
+            dc = mgen.dense_state(c, ops)
+            dO, da = mgen.dense_state(O, ops), mgen.dense_state(a, ops)
+        except yastn.YastnError as e:
+            ctx.violation('O @ psi raised %s (%s %s N=%d)' % (str(e)[:100], fam, sym, N), desc)
+            continue
+        # dense reference: sum over sigma' of O(sigma, sigma') psi(sigma')
+        dOm = dO.transpose(list(range(0, 2 * N, 2)) + list(range(1, 2 * N, 2))).reshape(dloc ** N, dloc ** N)
+        ref = (dOm @ da.reshape(-1)).reshape([dloc] * N)
+        impl = [[int(dc[tuple(s_)])] * 2 for s_ in sigmas]
+        if any(int(ref[tuple(s_)]) != int(dc[tuple(s_)]) for s_ in sigmas):
+            s_ = next(s_ for s_ in sigmas if int(ref[tuple(s_)]) != int(dc[tuple(s_)]))
+            ctx.violation('O @ psi has amplitude %r at %r, the dense operator applied to the dense state gives %r (%s %s N=%d)' % (
+                int(dc[tuple(s_)]), s_, int(ref[tuple(s_)]), fam, sym, N), desc)
+            continue
+        try:
+            jobs.append((OP_MPO, [dloc, export_mpo_mps(O, a, ops), sigmas]))
+        except (ValueError, AssertionError):
+            continue
+        src.append((desc, impl))
+        ctx.case(desc, nontrivial=True)
+        ctx.count('model-product:%s' % fam)
+    bad = []
+    if st['model_ok'] and jobs:
+        mo = vlib.run_model(jobs, shards=8)
+        for (desc, impl), m in zip(src, mo):
+            if m != impl:
+                k = next(i for i, (u, v) in enumerate(zip(m, impl)) if u != v)
+                bad.append(dict(desc=desc, first=dict(model_product_and_applied=m[k], impl=impl[k])))
+        small = [(op, arg, out) for (op, arg), out in zip(jobs, mo) if len(vlib.to_sx(arg)) < 3000][:8]
+        ok, idx, ns = vlib.coq_sample('C06p', small)
+        ctx.extra['coq_vm_sample_product'] = dict(n=ns, mismatches=len(idx), ok=ok)
+        if not ok and not bad:
+            ctx.broken.append('in-Coq vm_compute sample (product) disagrees with the extracted driver at %r' % idx[:5])
+    ctx.extra['model_product_correspondence'] = dict(cases=len(jobs), disagreements=len(bad))
     return bad
 
 
@@ -214,12 +301,15 @@ def run(ctx):
     quick = ctx.tier == 'quick'
     ctx.cov['rule'] = ('integer-valued (also Gaussian-integer) MPS/MPO of every operator family x symmetry, N = 1..5, random bond dimensions and admissible total charges, '
                        'non-unit factors and complex scalars: every algebra operation and measurement vs NumPy on dense vectors/matrices exactly; zipper/compression/'
-                       'mps_from_tensor with tolerance; random expression trees; product states; the Coq model of addition on exported site matrices. non-trivial = all; '
+                       'mps_from_tensor with tolerance; random expression trees; product states; the Coq models of addition and of MPO @ MPS on exported site matrices. non-trivial = all; '
                        'distinct by (family, symmetry, N, seed, operation)')
     bad = model_add_correspondence(ctx, st, quick)
+    badp = model_product_correspondence(ctx, st, quick)
     dense_oracles(ctx, quick)
     if bad and not ctx.violations:
         ctx.violation('MPS addition: model and implementation disagree: %r' % (bad[0],), dict(kind='correspondence', first=bad[:3]))
+    if badp and not ctx.violations:
+        ctx.violation('MPO @ MPS: model and implementation disagree: %r' % (badp[0],), dict(kind='correspondence', first=badp[:3]))
     if ctx.broken and not ctx.violations:
         ctx.violation('obligation or tie no longer checks: %s' % ctx.broken[0], dict(kind='obligation', broken=ctx.broken), found_input=False)
     return ctx.finish(level='proof', checker_cmd='make -C /verif/coq (coqc 8.16.1) + coqc properties/C06.v (Print Assumptions)',
